@@ -13,18 +13,37 @@ import (
 	"strconv"
 	"strings"
 	"sync"
+	"time"
 
 	"github.com/aws/aws-sdk-go-v2/aws"
 	"github.com/aws/aws-sdk-go-v2/service/s3"
 
+	"github.com/kafscale/platform/addons/processors/sql-processor/internal/config"
 	"github.com/kafscale/platform/addons/processors/sql-processor/internal/decoder"
 )
 
 // VerifS3 is an in-process S3 endpoint (an http round tripper for the real aws-sdk s3.Client):
 // ListObjectsV2, ranged GetObject and PutObject over a map of objects.
 type VerifS3 struct {
-	mu      sync.Mutex
-	Objects map[string][]byte
+	mu       sync.Mutex
+	Objects  map[string][]byte
+	Modified map[string]int64 // LastModified of an object in Unix ms (default: 2024-01-01)
+}
+
+// ServeHTTP makes the same endpoint reachable over a real socket (httptest), for discovery.New.
+func (v *VerifS3) ServeHTTP(w http.ResponseWriter, req *http.Request) {
+	resp, err := v.Do(req)
+	if err != nil {
+		http.Error(w, err.Error(), 500)
+		return
+	}
+	for k, vals := range resp.Header {
+		for _, val := range vals {
+			w.Header().Add(k, val)
+		}
+	}
+	w.WriteHeader(resp.StatusCode)
+	_, _ = io.Copy(w, resp.Body)
 }
 
 type listResult struct {
@@ -72,7 +91,11 @@ func (v *VerifS3) Do(req *http.Request) (*http.Response, error) {
 		sort.Strings(keys)
 		out := listResult{Name: parts[0], Prefix: prefix, KeyCount: len(keys), MaxKeys: 1000}
 		for _, k := range keys {
-			out.Contents = append(out.Contents, listContent{Key: k, LastModified: "2024-01-01T00:00:00.000Z", Size: len(v.Objects[k])})
+			lm := "2024-01-01T00:00:00.000Z"
+			if ms, ok := v.Modified[k]; ok {
+				lm = time.UnixMilli(ms).UTC().Format("2006-01-02T15:04:05.000Z")
+			}
+			out.Contents = append(out.Contents, listContent{Key: k, LastModified: lm, Size: len(v.Objects[k])})
 		}
 		body, _ := xml.Marshal(out)
 		return resp(200, append([]byte(xml.Header), body...), map[string]string{"Content-Type": "application/xml"}), nil
@@ -126,6 +149,15 @@ func (v *VerifS3) VerifBuildTimeIndex(ctx context.Context, prefix string, dec de
 	c := v.client()
 	l := &s3Lister{client: c, bucket: "b", prefix: normalizePrefix(prefix)}
 	b := newTimeIndexBuilder(c, "b", "", 0, 0, l, dec)
+	return b.Build(ctx)
+}
+
+// VerifBuildManifest runs the real ManifestBuilder.Build (constructed by the real NewManifestBuilder).
+func VerifBuildManifest(ctx context.Context, cfg config.Config, lister Lister) error {
+	b, err := NewManifestBuilder(cfg, lister)
+	if err != nil {
+		return err
+	}
 	return b.Build(ctx)
 }
 
